@@ -180,7 +180,15 @@ def explore_parallel(pool, pid, tier, h, deadline, seed, log):
         nshards += 1
     stop = False
     while pending and not stop:
-        done, pending = cf.wait(pending, return_when=cf.FIRST_COMPLETED)
+        done, pending = cf.wait(pending, timeout=5, return_when=cf.FIRST_COMPLETED)
+        if deadline is not None and time.time() > deadline + 5:
+            # budget exhausted: shards not started yet are dropped and counted
+            dropped = [g for g in pending if g.cancel()]
+            if dropped:
+                agg.exhausted = False
+                agg.inconclusive["budget: shards not started"] = \
+                    agg.inconclusive.get("budget: shards not started", 0) + len(dropped)
+                pending = set(g for g in pending if not g.cancelled())
         for f in done:
             d = f.result()
             agg.add(d)
